@@ -103,6 +103,9 @@ class TLSConnection(TLSRecordLayer):
         # used only for TLS 1.2 and earlier
         self._peer_record_size_limit = None
         self._pha_supported = False
+        # the checker passed to the server handshake, it needs to accept
+        # the connection before session tickets are sent
+        self._pre_ticket_checker = None
         self.client_cert_compression_algo = None
         self.server_cert_compression_algo = None
 
@@ -2507,6 +2510,7 @@ class TLSConnection(TLSRecordLayer):
         :rtype: iterable
         :returns: A generator; see above for details.
         """
+        self._pre_ticket_checker = checker
         handshaker = self._handshakeServerAsyncHelper(\
             verifierDB=verifierDB, cert_chain=certChain,
             privateKey=privateKey, reqCert=reqCert,
@@ -2948,6 +2952,27 @@ class TLSConnection(TLSRecordLayer):
         # all AEADs use 12 byte long IV
         iv = HKDF_expand_label(ticket_secret, b"iv", b"", 12, prf_name)
         return key, iv
+
+    def _check_before_tickets(self, resumed):
+        """
+        Run the checker of the handshake before tickets are handed out.
+
+        A session ticket is self-contained: once sent, it can't be revoked,
+        and a connection resumed from it is by default not checked again.
+        So a peer rejected by the checker must not receive one.
+        """
+        checker = self._pre_ticket_checker
+        if not checker:
+            return
+        self.resumed = resumed
+        try:
+            checker(self)
+        except TLSAuthenticationError:
+            alert = Alert().create(AlertDescription.close_notify,
+                                   AlertLevel.fatal)
+            for result in self._sendMsg(alert):
+                yield result
+            raise
 
     def _serverSendTickets(self, settings):
         """Send session tickets to client."""
@@ -3636,6 +3661,8 @@ class TLSConnection(TLSRecordLayer):
         # switch to application_traffic_secret for client packets
         self._changeReadState()
 
+        for result in self._check_before_tickets(bool(resuming)):
+            yield result
         for result in self._serverSendTickets(settings):
             yield result
 
@@ -5191,6 +5218,8 @@ class TLSConnection(TLSRecordLayer):
     def _sendFinished(self, masterSecret, cipherSuite=None, nextProto=None,
             settings=None, send_session_ticket=False, client_cert_chain=None):
         if send_session_ticket:
+            for result in self._check_before_tickets(False):
+                yield result
             for result in self._serverSendTickets(settings):
                 yield result
 
